@@ -60,6 +60,55 @@ pub fn run(tier: Tier) -> Run {
     let sw = c03::sweep(tier, &check_mutant);
     run.add_all(sw.viols);
     run.merge_outcomes(&sw.outcomes);
+    // structural sequences: every word over the 21-class alphabet up to length L through the same calls
+    {
+        use crate::checks::c05::{rep_inst, SYMBOLS};
+        let l = tier.pick(4, 5);
+        let ns = SYMBOLS.len() as u8;
+        let mut prefixes: Vec<Vec<u8>> = vec![];
+        for a in 0..ns {
+            prefixes.push(vec![a]);
+            for b in 0..ns {
+                prefixes.push(vec![a, b]);
+            }
+        }
+        let res: Vec<(u64, Vec<Viol>)> = prefixes
+            .par_iter()
+            .map(|p| {
+                let mut n = 0u64;
+                let mut vs: Vec<Viol> = vec![];
+                let mut stack = vec![p.clone()];
+                while let Some(s) = stack.pop() {
+                    let mut words = crate::model::header(0x0001_0000, 0, 1000);
+                    for (i, &k) in s.iter().enumerate() {
+                        words.extend(crate::model::enc(&rep_inst(SYMBOLS[k as usize], i)));
+                    }
+                    let m = Mutant { what: format!("seq{:?}", s.iter().map(|&k| SYMBOLS[k as usize]).collect::<Vec<_>>()), bytes: crate::model::words_to_bytes(&words) };
+                    let (v, _, _) = check_mutant("class-sequence", &m);
+                    n += 1;
+                    if let Some(v) = v {
+                        if !vs.iter().any(|x| x.key == v.key) {
+                            vs.push(v);
+                        }
+                    }
+                    if s.len() >= 2 && s.len() < l {
+                        for k in 0..ns {
+                            let mut t = s.clone();
+                            t.push(k);
+                            stack.push(t);
+                        }
+                    }
+                }
+                (n, vs)
+            })
+            .collect();
+        let mut seqn = 0;
+        for (n, v) in res {
+            seqn += n;
+            run.add_all(v);
+        }
+        run.outcome("class_sequences", seqn);
+    }
     // decoder request space
     let reqs = c11::requests();
     let mut bufs = c11::buffers(&[0x00, 0x02, 0xFF], tier.pick(5, 7));
